@@ -61,6 +61,18 @@ class Exec:
                     data = a[1].encode() if isinstance(a[1], str) else a[1]
                     self.written[data] = (side, len(self.plan))
                 w.log.append(("U", side, op, tuple(a)))
+        elif k == "A":
+            _, side, op, *a = item
+            performed, destroyed = w.user_abs(side, op, *a)
+            if performed:
+                self.n_user += 1
+                self._seen_user = True
+                for d in destroyed:
+                    self.destroyed.add(d)
+                if op in ("create", "write"):
+                    data = a[1].encode() if isinstance(a[1], str) else a[1]
+                    self.written[data] = (side, len(self.plan))
+                w.log.append(("A", side, op, tuple(a)))
         elif k == "T":
             CLOCK.advance(item[1])
         elif k == "Q":
@@ -226,10 +238,10 @@ def canon_user_ops(plan):
         return "/" + "/".join(out)
     sig = []
     for it in plan:
-        if it[0] == "U":
+        if it[0] in ("U", "A"):
             _, side, op, *a = it
             paths = [ab(x) for x in a if isinstance(x, str) and x.startswith("/")]
-            sig.append("%d:%s(%s)" % (side, op, ",".join(paths)))
+            sig.append("%d:%s%s(%s)" % (side, "abs-" if it[0] == "A" else "", op, ",".join(paths)))
         elif it[0] == "R":
             sig.append("R:" + ":".join(str(x) for x in it[1:]))
         elif it[0] == "X":
@@ -242,7 +254,7 @@ def schedule_sig(plan):
     for it in plan:
         if it[0] == "S":
             out.append(str(it[1]))
-        elif it[0] == "U":
+        elif it[0] in ("U", "A"):
             out.append("u")
         elif it[0] == "Q":
             out.append("q")
